@@ -24,6 +24,7 @@ import (
 	"math/rand"
 	"net/netip"
 	"os"
+	"path/filepath"
 	"runtime/debug"
 	"strings"
 	"testing"
@@ -135,6 +136,14 @@ func (x *exec) verdict(o obs, fallbackConfigured bool) {
 	if o.v != c.V {
 		x.drift(c.Ep+"/verdict", fmt.Sprintf("%s: model says %s (%s), code did %s (%s)", c.Ep, c.V, c.Why, o.v, o.err), c.V+":"+c.Why, o.v+":"+o.err)
 	}
+}
+
+// scratchBase is the runner's scratch directory (removed by the runner even when this process dies).
+func scratchBase() string {
+	if out := os.Getenv("VERIF_OUT"); out != "" {
+		return filepath.Dir(out)
+	}
+	return ""
 }
 
 func caseSeed(seed int64, id string, k int) int64 {
@@ -380,7 +389,7 @@ func TestCases(t *testing.T) {
 	in.Param("conc", &conc)
 	only := -1
 	in.Param("onlyK", &only)
-	dir, err := os.MkdirTemp("", "c06-world-")
+	dir, err := os.MkdirTemp(scratchBase(), "c06-world-")
 	if err != nil {
 		res.Break("%v", err)
 		return
